@@ -218,7 +218,7 @@ theorem step_entries (own : String) (s : St) (op : Op) :
     cases hin : s.inSession <;> cases en <;> cases cr <;> simp [step, classify, evStep, St.cleared, hin]
   | response k sender ok items =>
     simp only [step, classify]
-    cases hd : delivered own s k sender <;> cases ok <;> simp [evStep]
+    cases hd : delivered s k sender <;> cases ok <;> simp [evStep]
   | rosterIq type sender id items =>
     simp only [step, classify]
     cases ha : authorised own sender <;> cases type <;> simp [evStep, applyItems_fst]
@@ -227,31 +227,17 @@ theorem step_entries (own : String) (s : St) (op : Op) :
     by_cases hb : bare sender = ""
     · simp [hb, evStep]
     · cases type <;> simp [hb, evStep]
+  | api call tracked =>
+    cases call <;> simp only [step, classify, evStep]
+    split <;> rfl
+  | setJid j => rfl
 
 theorem run_cons (own : String) (s : St) (op : Op) (ops : List Op) :
-    (run own s (op :: ops)).1 = (run own (step own s op).1 ops).1 := rfl
-
-theorem run_append (own : String) (s : St) (a b : List Op) :
-    (run own s (a ++ b)).1 = (run own (run own s a).1 b).1 := by
-  induction a generalizing s with
-  | nil => rfl
-  | cons op rest ih => simp only [List.cons_append, run_cons, ih]
-
-theorem trace_append (own : String) (s : St) (a b : List Op) :
-    trace own s (a ++ b) = trace own s a ++ trace own (run own s a).1 b := by
-  induction a generalizing s with
-  | nil => rfl
-  | cons op rest ih => simp only [List.cons_append, trace, run_cons, ih]
-
-theorem traceS_append (own : String) (s : St) (a b : List Op) :
-    traceS own s (a ++ b) = traceS own s a ++ traceS own (run own s a).1 b := by
-  induction a generalizing s with
-  | nil => rfl
-  | cons op rest ih => simp only [List.cons_append, traceS, run_cons, ih]
+    (run own s (op :: ops)).1 = (run (nextOwn own op) (step own s op).1 ops).1 := rfl
 
 theorem run_entries (own : String) (s : St) (ops : List Op) :
     (run own s ops).1.entries = (trace own s ops).foldl evStep s.entries := by
-  induction ops generalizing s with
+  induction ops generalizing s own with
   | nil => rfl
   | cons op rest ih => simp only [run_cons, trace, List.foldl_cons, ih, step_entries]
 
@@ -277,7 +263,7 @@ theorem step_pres (own : String) (s : St) (op : Op) (b r : String) :
       simp [step, classify, pairStep, St.cleared, resTable_nil, lookupKey_nil, hin]
   | response k sender ok items =>
     simp only [step, classify]
-    cases hd : delivered own s k sender <;> cases ok <;> simp [pairStep]
+    cases hd : delivered s k sender <;> cases ok <;> simp [pairStep]
   | rosterIq type sender id items =>
     simp only [step, classify]
     cases ha : authorised own sender <;> cases type <;> simp [pairStep]
@@ -309,11 +295,15 @@ theorem step_pres (own : String) (s : St) (op : Op) (b r : String) :
             simp [h2, this]
         · have : ¬ bare sender = b := fun e => h1 e.symm
           simp [h1, this]
+  | api call tracked =>
+    cases call <;> simp only [step, classify, pairStep]
+    split <;> rfl
+  | setJid j => rfl
 
 theorem run_pres (own : String) (s : St) (ops : List Op) (b r : String) :
     lookupKey r (resTable (run own s ops).1.presences b)
       = (trace own s ops).foldl (pairStep b r) (lookupKey r (resTable s.presences b)) := by
-  induction ops generalizing s with
+  induction ops generalizing s own with
   | nil => rfl
   | cons op rest ih => simp only [run_cons, trace, List.foldl_cons, ih, step_pres]
 
@@ -369,7 +359,7 @@ theorem Inv.step (own : String) {s : St} (hi : Inv s) (op : Op) : Inv (step own 
         | exact ⟨List.nodup_nil, List.nodup_nil, by intro p hp; cases hp⟩
   | response k sender ok items =>
     simp only [Qx.C12.step]
-    cases hd : delivered own s k sender <;> cases ok <;> simp only [if_true, if_false, Bool.false_eq_true]
+    cases hd : delivered s k sender <;> cases ok <;> simp only [if_true, if_false, Bool.false_eq_true]
     · exact hi
     · exact hi
     · exact ⟨hi.entries, hi.pres, hi.inner⟩
@@ -396,11 +386,17 @@ theorem Inv.step (own : String) {s : St} (hi : Inv s) (op : Op) : Inv (step own 
       · refine ⟨hi.entries, nodup_keys_insertKey _ _ _ hi.pres, ?_⟩
         exact inner_insertKey hi.inner _ _ (nodup_keys_eraseKey _ _ (nodup_resTable hi.inner _))
       · exact hi
+  | api call tracked =>
+    cases call <;> simp only [Qx.C12.step] <;> first
+      | exact hi
+      | exact ⟨hi.entries, hi.pres, hi.inner⟩
+      | (split <;> first | exact hi | exact ⟨hi.entries, hi.pres, hi.inner⟩)
+  | setJid j => exact hi
 
 theorem Inv.run (own : String) {s : St} (hi : Inv s) (ops : List Op) : Inv (run own s ops).1 := by
-  induction ops generalizing s with
+  induction ops generalizing s own with
   | nil => exact hi
-  | cons op rest ih => rw [run_cons]; exact ih (hi.step own op)
+  | cons op rest ih => rw [run_cons]; exact ih _ (hi.step own op)
 
 /-! ### a clearing event makes everything before it irrelevant -/
 
@@ -445,7 +441,7 @@ theorem step_received (own : String) (s : St) (op : Op) :
     cases hin : s.inSession <;> cases en <;> cases cr <;> simp [step, classify, recStep, St.cleared, hin]
   | response k sender ok items =>
     simp only [step, classify]
-    cases hd : delivered own s k sender <;> cases ok <;> simp [recStep]
+    cases hd : delivered s k sender <;> cases ok <;> simp [recStep]
   | rosterIq type sender id items =>
     simp only [step, classify]
     cases ha : authorised own sender <;> cases type <;> simp [recStep]
@@ -454,10 +450,14 @@ theorem step_received (own : String) (s : St) (op : Op) :
     by_cases hb : bare sender = ""
     · simp [hb, recStep]
     · cases type <;> simp [hb, recStep]
+  | api call tracked =>
+    cases call <;> simp only [step, classify, recStep]
+    split <;> rfl
+  | setJid j => rfl
 
 theorem run_received (own : String) (s : St) (ops : List Op) :
     (run own s ops).1.received = (trace own s ops).foldl recStep s.received := by
-  induction ops generalizing s with
+  induction ops generalizing s own with
   | nil => rfl
   | cons op rest ih => simp only [run_cons, trace, List.foldl_cons, ih, step_received]
 
@@ -514,7 +514,7 @@ theorem SessInv.step (own : String) {s : St} {c : Chain} {E : List Ev} (h : Sess
   | response k sender ok items =>
     apply h.step_plain own _ _ rfl rfl
     simp only [Qx.C12.step]
-    cases delivered own s k sender <;> cases ok <;> rfl
+    cases delivered s k sender <;> cases ok <;> rfl
   | rosterIq type sender id items =>
     apply h.step_plain own _ _ rfl rfl
     simp only [Qx.C12.step]
@@ -525,6 +525,11 @@ theorem SessInv.step (own : String) {s : St} {c : Chain} {E : List Ev} (h : Sess
     by_cases hb : bare sender = ""
     · simp [hb]
     · cases type <;> simp [hb]
+  | api call tracked =>
+    apply h.step_plain own _ _ rfl rfl
+    cases call <;> simp only [Qx.C12.step]
+    split <;> rfl
+  | setJid j => exact h.step_plain own _ rfl rfl rfl
   | connected sm auth =>
     have hin : (Qx.C12.step own s (.connected sm auth)).1.inSession = true := by
       simp only [Qx.C12.step]
@@ -582,7 +587,7 @@ theorem chainFrom_cons (c : Chain) (op : Op) (ops : List Op) :
 theorem SessInv.run (own : String) (ops : List Op) {s : St} {c : Chain} {E : List Ev}
     (h : SessInv s c E) (henv : resumesOkFrom c ops = true) :
     SessInv (run own s ops).1 (chainFrom c ops) (E ++ traceS own s ops) := by
-  induction ops generalizing s c E with
+  induction ops generalizing s c E own with
   | nil =>
     show SessInv s c (E ++ [])
     rw [List.append_nil]
@@ -591,7 +596,7 @@ theorem SessInv.run (own : String) (ops : List Op) {s : St} {c : Chain} {E : Lis
     simp only [resumesOkFrom, Bool.and_eq_true] at henv
     have h1 : ∀ a, op = .connected .resumed a → c.smChain = true := by
       intro a ha; subst ha; exact henv.1
-    have h2 := ih (h.step own op h1) henv.2
+    have h2 := ih (nextOwn own op) (h.step own op h1) henv.2
     rw [run_cons, chainFrom_cons]
     simpa [traceS] using h2
 
@@ -629,9 +634,200 @@ theorem resumesOkFrom_iff (c : Chain) (ops : List Op) :
         | response k sender ok items => rfl
         | rosterIq type sender id items => rfl
         | presence sender type status => rfl
+        | api call tracked => rfl
+        | setJid j => rfl
       · apply (ih (c.step op)).mpr
         intro pre a post heq
         have := h (op :: pre) a post (by rw [heq]; rfl)
         simpa [chainFrom_cons] using this
+
+/-! ### the observer's events (`wireTrace`) are the model's events (`trace`) -/
+
+theorem askedNow_nil (own : String) : askedNow own [] = [] := rfl
+
+theorem askedNow_itemSignal (own : String) (e : Entries) (it : Item) : askedNow own (itemSignal e it) = [] := by
+  unfold itemSignal
+  split
+  · split <;> rfl
+  · split <;> rfl
+
+theorem askedNow_append (own : String) (a b : List Out) :
+    askedNow own (a ++ b) = askedNow own a ++ askedNow own b := by
+  simp [askedNow, List.filterMap_append]
+
+theorem askedNow_applyItems (own : String) (e : Entries) (items : List Item) :
+    askedNow own (applyItems e items).2 = [] := by
+  induction items generalizing e with
+  | nil => rfl
+  | cons it rest ih => simp only [applyItems, askedNow_append, askedNow_itemSignal, ih, List.append_nil]
+
+/-- one step keeps the observer's bookkeeping equal to the model's (outstanding requests, session flag), and on
+equal bookkeeping both classify the operation alike -/
+theorem wire_step (own : String) (s : St) (w : Wire) (op : Op)
+    (h1 : w.asked = s.pending) (h2 : w.inSession = s.inSession) :
+    wireEvent own w op = classify own s op
+    ∧ (w.step own op (step own s op).2).asked = (step own s op).1.pending
+    ∧ (w.step own op (step own s op).2).inSession = (step own s op).1.inSession := by
+  cases op with
+  | connected sm auth =>
+    refine ⟨rfl, ?_, ?_⟩
+    · by_cases hr : sm = .resumed
+      · simp only [Qx.C12.step, Wire.step, hr, if_true]
+        split <;> simp [askedNow, h1]
+      · simp only [Qx.C12.step, Wire.step, hr, if_false]
+        split <;> simp [askedNow, St.cleared]
+    · by_cases hr : sm = .resumed
+      · simp only [Qx.C12.step, Wire.step, hr, if_true]; split <;> rfl
+      · simp only [Qx.C12.step, Wire.step, hr, if_false]; split <;> rfl
+  | disconnected en cr =>
+    refine ⟨by simp [wireEvent, classify, h2], ?_, ?_⟩
+    · cases hin : s.inSession <;> cases en <;> cases cr <;>
+        simp [Qx.C12.step, Wire.step, hin, askedNow, h1, St.cleared]
+    · cases hin : s.inSession <;> cases en <;> cases cr <;>
+        simp [Qx.C12.step, Wire.step, hin, St.cleared]
+  | response k sender ok items =>
+    refine ⟨by simp [wireEvent, classify, delivered, h1], ?_, ?_⟩
+    · simp only [Qx.C12.step, Wire.step, delivered, h1]
+      cases answers s.pending k sender <;> cases ok <;> simp [askedNow, h1]
+    · simp only [Qx.C12.step, Wire.step, delivered, h1]
+      cases answers s.pending k sender <;> cases ok <;> simp [h2]
+  | rosterIq type sender id items =>
+    refine ⟨by simp [wireEvent, classify, authorised], ?_, ?_⟩
+    · simp only [Qx.C12.step, Wire.step]
+      cases authorised own sender
+      · cases type <;> simp [askedNow, h1]
+      · cases type with
+        | set =>
+          have hz := askedNow_applyItems own s.entries items
+          show w.asked ++ askedNow own ([Out.sentResult id sender] ++ (applyItems s.entries items).2) = s.pending
+          rw [askedNow_append, hz]
+          simp [askedNow, h1]
+        | get => simp [askedNow, h1]
+        | result => simp [askedNow, h1]
+        | error => simp [askedNow, h1]
+    · simp only [Qx.C12.step, Wire.step]
+      cases authorised own sender <;> cases type <;> simp [h2]
+  | presence sender type status =>
+    refine ⟨rfl, ?_, ?_⟩
+    · simp only [Qx.C12.step, Wire.step]
+      by_cases hb : bare sender = ""
+      · simp [hb, askedNow, h1]
+      · cases type <;> simp [hb, askedNow, h1]
+    · simp only [Qx.C12.step, Wire.step]
+      by_cases hb : bare sender = ""
+      · simp [hb, h2]
+      · cases type <;> simp [hb, h2]
+  | api call tracked =>
+    refine ⟨rfl, ?_, ?_⟩
+    · cases call <;> simp only [Qx.C12.step, Wire.step]
+      all_goals (first | (split <;> simp [askedNow, h1]) | simp [askedNow, h1])
+    · cases call <;> simp only [Qx.C12.step, Wire.step]
+      all_goals (first | (split <;> simp [h2]) | simp [h2])
+  | setJid j => exact ⟨rfl, by simp [Qx.C12.step, Wire.step, askedNow, h1], by simp [Qx.C12.step, Wire.step, h2]⟩
+
+theorem wireTrace_eq_trace (own : String) (s : St) (w : Wire) (ops : List Op)
+    (h1 : w.asked = s.pending) (h2 : w.inSession = s.inSession) :
+    wireTrace own s w ops = trace own s ops := by
+  induction ops generalizing s w own with
+  | nil => rfl
+  | cons op rest ih =>
+    have h := wire_step own s w op h1 h2
+    simp only [wireTrace, trace]
+    rw [h.1, ih _ _ _ h.2.1 h.2.2]
+
+/-! ### only clearing, full-roster and push events matter for the contact list -/
+
+def Ev.isRosterEv : Ev → Bool
+  | .clear => true
+  | .full _ => true
+  | .push _ => true
+  | _ => false
+
+theorem foldl_evStep_filter (evs : List Ev) (e : Entries) :
+    (evs.filter Ev.isRosterEv).foldl evStep e = evs.foldl evStep e := by
+  induction evs generalizing e with
+  | nil => rfl
+  | cons ev rest ih => cases ev <;> simp [List.filter_cons, Ev.isRosterEv, evStep, ih]
+
+theorem specView_filter (evs : List Ev) : specView (evs.filter Ev.isRosterEv) = specView evs := by
+  rw [specView_eq_fold, specView_eq_fold, foldl_evStep_filter]
+
+/-! ### answers -/
+
+theorem answers_iff (asked : List (Nat × String)) (k : Nat) (sender : String) :
+    answers asked k sender = true ↔ ∃ to, (k, to) ∈ asked ∧ (sender = "" ∨ sender = to) := by
+  simp only [answers, List.any_eq_true, Bool.and_eq_true, Bool.or_eq_true, decide_eq_true_eq]
+  constructor
+  · rintro ⟨p, hp, hk, hs⟩
+    refine ⟨p.2, ?_, hs⟩
+    rw [← hk]; exact hp
+  · rintro ⟨to, hp, hs⟩
+    exact ⟨(k, to), hp, rfl, hs⟩
+
+theorem answers_dropReq (asked : List (Nat × String)) (k : Nat) (sender : String) :
+    answers (dropReq asked k) k sender = false := by
+  rw [Bool.eq_false_iff]
+  intro h
+  obtain ⟨to, hm, _⟩ := (answers_iff _ _ _).mp h
+  simp [dropReq, List.mem_filter] at hm
+
+/-- request numbers are handed out in order: everything outstanding is below the counter -/
+def PendInv (s : St) : Prop := ∀ p ∈ s.pending, p.1 < s.nextReq
+
+theorem PendInv.init : PendInv init := by intro p hp; cases hp
+
+theorem PendInv.step (own : String) {s : St} (hi : PendInv s) (op : Op) : PendInv (step own s op).1 := by
+  have hmono : ∀ {l : List (Nat × String)} {n : Nat}, (∀ p ∈ l, p.1 < n) → ∀ p ∈ l, p.1 < n + 1 :=
+    fun h p hp => Nat.lt_succ_of_lt (h p hp)
+  cases op with
+  | connected sm auth =>
+    by_cases hr : sm = .resumed
+    · simp only [Qx.C12.step, hr, if_true]
+      split
+      · intro p hp
+        simp only [List.mem_append, List.mem_singleton] at hp
+        rcases hp with hp | hp
+        · exact Nat.lt_succ_of_lt (hi p hp)
+        · rw [hp]; exact Nat.lt_succ_self _
+      · exact hi
+    · simp only [Qx.C12.step, hr, if_false]
+      split
+      · intro p hp
+        simp only [St.cleared, List.nil_append, List.mem_singleton] at hp
+        rw [hp]; exact Nat.lt_succ_self _
+      · intro p hp; cases hp
+  | disconnected en cr =>
+    cases hin : s.inSession <;> cases en <;> cases cr <;>
+      simp only [Qx.C12.step, hin, if_true, if_false, Bool.false_eq_true, Bool.not_false, Bool.not_true,
+        St.cleared] <;>
+      first
+        | exact hi
+        | (intro p hp; cases hp)
+  | response k sender ok items =>
+    simp only [Qx.C12.step]
+    cases delivered s k sender <;> cases ok <;> simp only [if_true, if_false, Bool.false_eq_true]
+    · exact hi
+    · exact hi
+    · intro p hp; exact hi p (List.mem_filter.mp hp).1
+    · intro p hp; exact hi p (List.mem_filter.mp hp).1
+  | rosterIq type sender id items =>
+    simp only [Qx.C12.step]
+    cases authorised own sender <;> cases type <;> simp only [if_true, if_false, Bool.false_eq_true] <;> exact hi
+  | presence sender type status =>
+    simp only [Qx.C12.step]
+    by_cases hb : bare sender = ""
+    · simp only [hb, if_true]; exact hi
+    · cases type <;> simp only [hb, if_false] <;> exact hi
+  | api call tracked =>
+    cases call <;> simp only [Qx.C12.step] <;> first
+      | exact hi
+      | exact hmono hi
+      | (split <;> first | exact hi | exact hmono hi)
+  | setJid j => exact hi
+
+theorem PendInv.run (own : String) {s : St} (hi : PendInv s) (ops : List Op) : PendInv (run own s ops).1 := by
+  induction ops generalizing s own with
+  | nil => exact hi
+  | cons op rest ih => rw [run_cons]; exact ih _ (hi.step own op)
 
 end Qx.C12
